@@ -63,6 +63,24 @@ func runC12(c *Ctx) {
 				}
 			}
 			okSection := d != nil && li.HeldAt(d).Holds("writer.mu", true) && unlockBetween(f, d, wc, "writer.mu") == nil
+			if d == nil {
+				// a dispatch helper (write one / write many) called with the drained batch: judge every
+				// call site of the helper in its caller
+				callers := w.Callers(f)
+				okSection = len(callers) > 0
+				for _, cs := range callers {
+					g := cs.Parent()
+					var dd ssa.CallInstruction
+					for _, dc := range CallsIn(g, false, drain) {
+						if Reaches(dc, cs) {
+							dd = dc
+						}
+					}
+					if dd == nil || !li.HeldAt(dd).Holds("writer.mu", true) || unlockBetween(g, dd, cs, "writer.mu") != nil || unlockBetween(f, f.Blocks[0].Instrs[0], wc, "writer.mu") != nil {
+						okSection = false
+					}
+				}
+			}
 			det := "the batch leaves the queue and reaches the transport in one critical section; otherwise a concurrent close-with-flush (or timer flush) writes later messages first and the drained batch is written after close returned"
 			if !okLock || !okSection {
 				det += fmt.Sprintf(" (held at write: %s; drain under lock: %v)", held, d != nil && li.HeldAt(d).Holds("writer.mu", true))
@@ -70,7 +88,7 @@ func runC12(c *Ctx) {
 			c.Check("C12.R1", wc, "transport write under writer.mu in the critical section of its drain", okLock && okSection, det)
 		}
 	}
-	c.Floor("C12.R1", 7)
+	c.Floor("C12.R1", 3)
 
 	// ---- R2
 	for _, name := range []string{"(*writer).enqueue", "(*writer).enqueueMany"} {
